@@ -117,6 +117,14 @@ def gen_cases(rng, tier):
                         r["ub"] = cap
                     elif lb < 0:
                         r["lb"] = "-" + cap
+        if k % 3 == 1:
+            # exchange identifiers that contain an exclusion fragment of the boundary-type heuristic in ANOTHER letter case
+            # ("asn_" ~ "SN_", "cdm_" ~ "DM_"): they are exchanges, open_exchanges must open them
+            for r in net["rxns"]:
+                if r["id"].startswith("EX_") and rng.random() < 0.6:
+                    r["id"] = r["id"].replace("EX_", rng.choice(["EX_asn_", "EX_cdm_"]), 1)
+                    if rng.random() < 0.5:
+                        r["lb"], r["ub"] = "0", "0"          # closed: only open_exchanges lets it carry flux
         ids = [r["id"] for r in net["rxns"]]
         if rng.random() < 0.5:
             sub = None
